@@ -81,7 +81,12 @@ def mk(spec):
     raise ValueError(k)
 
 
+_IDX_WATCH = []
+
+
 def mkidx(spec):
+    """index object from its literal; list and integer-matrix indices are operands of the operation and
+    are watched: check_indices() verifies afterwards that the operation left them alone"""
     from cvxopt import matrix
     k = spec['k']
     if k == 'int':
@@ -89,10 +94,25 @@ def mkidx(spec):
     if k == 'slice':
         return slice(*spec['v'])
     if k == 'list':
-        return list(spec['v'])
+        o = list(spec['v'])
+        _IDX_WATCH.append((o, list(spec['v'])))
+        return o
     if k == 'imat':
-        return matrix(spec['v'], (len(spec['v']), 1), 'i')
+        o = matrix(spec['v'], (len(spec['v']), 1), 'i')
+        _IDX_WATCH.append((o, list(spec['v'])))
+        return o
     raise ValueError(k)
+
+
+def check_indices():
+    """None, or a description of an index operand that an operation modified"""
+    bad = None
+    for o, want in _IDX_WATCH:
+        if list(o) != want:
+            bad = 'an index %s given as %r reads %r after the operation' % (type(o).__name__, want, list(o))
+            break
+    del _IDX_WATCH[:]
+    return bad
 
 
 def rint(rng, tc, nonzero=False):
@@ -206,6 +226,8 @@ def gen_op(rng, w):
     X = w.env[t]['X']
     m, n = X.size
     tc = X.typecode
+    if rng.random() < 0.06 and m > 0 and n > 0:
+        return gen_reuse(rng, w, t)
     r = rng.random()
     if r < 0.30:
         return gen_setitem(rng, w, t)
@@ -249,6 +271,43 @@ def gen_op(rng, w):
     if len(w.env) > 2:
         return ['del', rng.choice(list(w.env))]
     return gen_derive(rng, w, t)
+
+
+def gen_reuse(rng, w, t):
+    """one object used as operand of a product, then mutated in place (values only, or pattern), then used in
+    the same product again: the second result must reflect the mutation"""
+    X = w.env[t]['X']
+    m, n = X.size
+    tc = X.typecode
+    kind = rng.choice(['gemm', 'gemm', 'syrk']) if tc == 'd' else 'gemm'
+    partial = bool(rng.random() < 0.7)
+    ops = ['seq']
+    if kind == 'gemm':
+        tA = rng.choice(['N', 'N', 'T'])
+        k = rng.randint(1, 4)
+        rows = m if tA == 'N' else n
+        inner = n if tA == 'N' else m
+        b, c = w.fresh(), w.fresh()
+        ops.append(['new', b, gen_sparse(rng, tc, inner, k) if rng.random() < 0.6 else gen_dense(rng, inner, k, tc)])
+        ops.append(['new', c, gen_sparse(rng, tc, rows, k)])
+        prod = ['gemm', t, b, c, tA, 'N', rint(rng, 'd', nonzero=True), rng.choice([0.0, 1.0]), partial]
+    else:
+        tr = rng.choice(['N', 'T'])
+        order = m if tr == 'N' else n
+        c = w.fresh()
+        ops.append(['new', c, gen_sparse(rng, tc, order, order)])
+        prod = ['syrk', t, c, tr, rint(rng, 'd', nonzero=True), rng.choice([0.0, 1.0]), partial]
+    ops.append(prod)
+    nnz = len(X)
+    mut = rng.choice(['setV', 'scale', 'setitem', 'setitem'])
+    if mut == 'setV' and nnz:
+        ops.append(['setV', t, {'k': 'dense', 'm': nnz, 'n': 1, 'tc': tc, 'v': [rint(rng, tc, nonzero=True) for _ in range(nnz)]}])
+    elif mut == 'scale':
+        ops.append(['iop', t, '*=', {'k': 'num', 'v': rng.choice([2.0, -1.0, 3.0])}])
+    else:
+        ops.append(['set2', t, {'k': 'int', 'v': rng.randrange(m)}, {'k': 'int', 'v': rng.randrange(n)}, {'k': 'num', 'v': rint(rng, tc, nonzero=True)}])
+    ops.append(list(prod))
+    return ops
 
 
 def gen_rhs(rng, tc, shape, allow_bad=True, scalar_lhs=False):
@@ -368,8 +427,18 @@ def gen_derive(rng, w, t):
     m, n = X.size
     tc = X.typecode
     kind = rng.choice(['T', 'H', 'real', 'imag', 'abs', 'neg', 'pos', 'add', 'sub', 'mul', 'smul', 'sdiv', 'get1', 'get2', 'get2',
-                       'sparse', 'spdiag', 'addnum', 'copy'])
+                       'sparse', 'spdiag', 'addnum', 'copy', 'dup', 'emul', 'blocks', 'sum'])
     nm = w.fresh()
+    if kind == 'dup':
+        # triplets with repeated positions: the values are added
+        mm, nn = rng.randint(1, 4), rng.randint(1, 4)
+        cnt = rng.randint(0, 8)
+        I = [rng.randrange(mm) for _ in range(cnt)]
+        J = [rng.randrange(nn) for _ in range(cnt)]
+        return ['derive', nm, 'dup', t, {'k': 'sparse', 'm': mm, 'n': nn, 'I': I, 'J': J, 'V': [rint(rng, tc) for _ in range(cnt)], 'tc': tc}]
+    if kind in ('emul', 'blocks'):
+        cands = [q for q in w.names() if w.env[q]['X'].size == X.size]
+        return ['derive', nm, kind, t, rng.choice(cands) if cands else t]
     if kind in ('add', 'sub'):
         cands = [q for q in w.names() if w.env[q]['X'].size == X.size]
         other = rng.choice(cands) if cands else t
@@ -768,6 +837,28 @@ def apply(op, w, stats):
             fs, fd = (lambda: +X), (lambda: +D)
         elif dk == 'copy':
             fs, fd = (lambda: spmatrix(X.V, X.I, X.J, X.size, X.typecode)), (lambda: +D)
+        elif dk == 'dup':
+            spec = op[4]
+
+            def fs():
+                return spmatrix([num(x) for x in spec['V']], spec['I'], spec['J'], (spec['m'], spec['n']), spec['tc'])
+
+            def fd():
+                R = matrix(0, (spec['m'], spec['n']), spec['tc'])
+                for i, j, v in zip(spec['I'], spec['J'], spec['V']):
+                    R[i, j] += num(v)
+                return R
+        elif dk == 'sum':
+            fs, fd = (lambda: sum(X)), (lambda: sum(D))
+            expect_sparse = False
+        elif dk in ('emul', 'blocks'):
+            import cvxopt
+            o = env[op[4]]
+            Y, Yd = o['X'], (o['D'] if o['sparse'] else o['X'])
+            if dk == 'emul':
+                fs, fd = (lambda: cvxopt.mul(X, Y)), (lambda: cvxopt.mul(D, Yd))
+            else:
+                fs, fd = (lambda: sparse([[X, Y], [Y, X]])), (lambda: matrix([[D, Yd], [Yd, D]]))
         elif dk in ('add', 'sub', 'mul'):
             o = env[op[4]]
             Y, Yd = o['X'], (o['D'] if o['sparse'] else o['X'])
@@ -877,7 +968,10 @@ def opname_of(op):
 
 def targets_of(op):
     if op[0] == 'seq':
-        return targets_of(op[-1])
+        out = set()
+        for sub in op[1:]:
+            out |= targets_of(sub)
+        return out
     k = op[0]
     if k in ('set1', 'set2', 'setV', 'size', 'iop'):
         return {op[1]}
@@ -930,6 +1024,9 @@ def run_ops(ops, journal, rng=None, nops=0, stats=None, alloc_mode='guard'):
                 if k in w.env and O.bits(w.env[k]['X']) != b:
                     raise Mismatch('operand-modified', '%s modified %s, which is not its target' % (name, k), op=name)
             check_world(w, name)
+            bad = check_indices()
+            if bad:
+                raise Mismatch('operand-modified', '%s: %s' % (name, bad), op=name, operand='index')
             nv, txt = seam_check()
             if nv:
                 raise Mismatch('allocator-seam', 'after %s: %s' % (name, txt), op=name)
@@ -986,6 +1083,10 @@ def run_unit(seed, tier, r, journal):
             res['nontrivial_digests'].append(core.sha(done))
         if v is not None:
             res['violations'].append({'case': {'ops': done, 'alloc_mode': mode}, 'violation': v})
+            # the interpreter's state is suspect after a violation (reference counts, heap): report now instead
+            # of dying in a later, innocent history — unless it is a listed known finding (a refusal)
+            if not core.match_known(core.load_known(PROPERTY), v['sig']):
+                break
         if k == 0 and r % 16 == 0:
             res['samples'].append({'ops': done[:12], 'total_ops': len(done)})
     res['digest'] = ulog.digest()
